@@ -13,6 +13,8 @@ SPEC = {
         {"name": "TestProfileTime", "quick": 24, "thorough": 240, "shards_quick": 2, "shards_thorough": 4, "timeout": 3000},
         # sleep-bound (5-13 s per case, thorough up to ~30 s): 12 cases per process concurrently; thorough = 40 per process
         {"name": "TestLongWaits", "quick": 12, "thorough": 40, "shards_quick": 2, "shards_thorough": 4, "timeout": 3000},
+        # step sections, 1-6 s per case: 24 cases per process concurrently; thorough = 240 per process, 24 at a time
+        {"name": "TestStepProfile", "quick": 24, "thorough": 240, "shards_quick": 2, "shards_thorough": 4, "timeout": 3000},
     ],
     "rule": ("generated profiles (once/const/line, optionally two chained; 1-12 tokens per part over 1-4 s), 1-4 instances, shared or "
              "per-instance, discard_overflow on/off, cyclic response-time histories drawn from {0, 50ms, 0.5s, 1.7s, 1.9s, 2.1s, 2.4s, 3s, "
@@ -47,7 +49,16 @@ SPEC = {
              "TestLongWaits: one instance has to wait 4-11 s (thorough: up to 26 s) in one go for a request: two small steps separated by a "
              "pause, a steady rate of one request per 4-11 s (2-3 requests), or a ramp from zero whose second request is that far away; "
              "1-3 instances (idle instances of a shared schedule take tokens several intervals ahead), responses of 0-200 ms, discard "
-             "on/off; all cases of a process concurrently; non-trivial = some token was handed out >= 3 s ahead of its time."),
+             "on/off; all cases of a process concurrently; non-trivial = some token was handed out >= 3 s ahead of its time. "
+             "TestStepProfile (same oracle): profiles with `step` sections: 2-4 levels (one in eight: a single level) of 250-900 ms (one in four: "
+             "exactly 250 / 500 / 1000 ms), lowest level 0 / 0.5 / 1 / 2 / 3 rps, increment 1-4 rps, `to` on a level or half a request above it, so that "
+             "the lowest one to three levels usually hold no request (0 rps, or rate x duration < 1: such a level is a pause that lasts its "
+             "duration) and some sections hold none at all; the step section alone (bare or as a one-element list), first, in the middle or last "
+             "among bursts / steady / ramp / pause / second step sections of 250-800 ms, one case in five with an `unlimited` tail; 1-3 "
+             "instances, shared or per-instance, discard on/off, responses of 0-50 ms (one case in five with discard on: also one of 0.5-2.6 s); "
+             "the profile-time reference expands a step section into its levels by the documented meaning (schedgen.Flatten) and chains them; "
+             "non-trivial = requests of limited sections are scheduled behind a step level without a request and shots were compared with "
+             "profile times."),
     "floors": {"TestTiming/late_1_2s": 0.1, "TestTiming/late_2_3s": 0.1, "TestTiming/late_ge_3s": 0.07,
                "TestTiming/discard_off": 0.066, "TestTiming/instances_gt_1": 0.3, "TestTiming/discards_seen": 0.2, "TestTiming/token_waited_for_right_after_a_discard": 0.08,
                "TestNoEarlyShotDense/shots_within_1ms_after_their_time": 0.3,
@@ -57,6 +68,15 @@ SPEC = {
                "TestProfileTime/instance_idle_at_end_of_limited_section_before_unlimited": 0.35, "TestProfileTime/unlimited_section_fired": 0.4,
                "TestProfileTime/limited_section_after_unlimited": 0.1, "TestProfileTime/shots_compared_with_profile_time": 0.6,
                "TestTiming/shots_compared_with_profile_time": 0.6,
+               "TestStepProfile/requests_behind_step_level_without_request_compared_with_profile_time": 0.3,
+               "TestStepProfile/step_profile_begins_with_level_without_request": 0.17,
+               "TestStepProfile/step_level_without_request_after_earlier_requests": 0.14,
+               "TestStepProfile/step_two_or_more_levels_without_request": 0.12,
+               "TestStepProfile/step_section_without_any_request": 0.15,
+               "TestStepProfile/step_level_without_request_before_unlimited": 0.1,
+               "TestStepProfile/step_fractional_from": 0.05, "TestStepProfile/step_every_level_has_requests": 0.04,
+               "TestStepProfile/shots_compared_with_profile_time": 0.44,
+               "TestStepProfile/instances_gt_1": 0.2, "TestStepProfile/discard_off": 0.1,
                "TestLongWaits/single_wait_ge_5s": 0.3, "TestLongWaits/single_wait_ge_8s": 0.08, "TestLongWaits/instances_gt_1": 0.2},
     "manifest": {
         "technique": "property-based testing (rapid generators, batch-parallel, real time) with an interval oracle over measured instants",
@@ -67,8 +87,8 @@ SPEC = {
                  "in the file written by the real phout aggregator, with guns that take their samples from netsample's pool: one "
                  "'discarded' / 777 line per token that was not fired, one faithful line per fired request. 'Scheduled time' is judged "
                  "twice: against the token the schedule handed out and against the timetable computed from the profile itself (sections "
-                 "chained from the start of the schedule), including profiles with an unlimited section, and for single waits of up to "
-                 "11 s (thorough 26 s)."),
+                 "chained from the start of the schedule), including profiles with an unlimited section, for single waits of up to "
+                 "11 s (thorough 26 s), and for `step` sections whose lowest levels hold no request (such a level still lasts its duration)."),
         "note": ("Cannot test the boundary at exactly 2.000 s: lateness between the two measured instants is accepted either way. Joins "
                  "token to shot by goroutine id parsed from runtime.Stack. Machine load delays A and B together and can only move a "
                  "sample into the accepted band. With discard off the run-length bound (profile + tokens x slowest response + 5 s) is only "
